@@ -106,7 +106,8 @@ ParseDefs == <<
                     F("struct", L(Imp("pkg", "Bar")), "65535"), F("service", Ref("Foo"), "5"), F("subservice", L(Ref("Foo")), "6")>>, TRUE),
     Message("M3", <<>>, FALSE),
     Message("M4", <<>>, TRUE),
-    Message("M5", <<F("big", B("int64"), "65536"), F("huge", B("bool"), Big63), F("zero", B("byte"), "0")>>, FALSE),
+    Message("M5", <<F("big", B("int64"), "65536"), F("huge", B("bool"), Big63), F("zero", B("byte"), "0"),
+                    F("lead", B("int32"), "010"), F("leads", B("int32"), "0077")>>, FALSE),       \* numbers are decimal: 10 and 77
     Message("M6", [i \in 1..15 |-> F("f" \o ToString(i), B(AllBase[i]), ToString(i))], TRUE),
     Message("M7", <<F("a", L(TAny), "1"), F("b", L(TMsg), "2"), F("c", L(B("string")), "3"), F("d", L(B("bin128")), "4")>>, FALSE),
     \* qualified references whose last part spells a built-in type name are references all the same
@@ -114,7 +115,7 @@ ParseDefs == <<
                     F("q4", Imp("pkg", "bytes"), "4"), F("q5", L(Imp("pkg", "bool")), "5")>>, FALSE),
     Enum("E1", <<EV("UNDEFINED", "0"), EV("ONE", "1"), EV("service", "255"), EV("any", "3")>>),
     Enum("E2", <<>>),
-    Enum("E3", <<EV("MAX", "2147483647"), EV("MORE", "2147483648"), EV("MOST", Big63)>>),
+    Enum("E3", <<EV("MAX", "2147483647"), EV("MORE", "2147483648"), EV("MOST", Big63), EV("TEN", "010"), EV("HUNDRED", "0100")>>),
     Struct("S1", <<SF("a", B("int32")), SF("b", Imp("pkg", "Bar")), SF("any", B("string")), SF("message", Ref("S2"))>>),
     Struct("S2", <<>>),
     Struct("S3", <<SF("x", L(B("int32"))), SF("y", TAny), SF("z", TMsg)>>),
